@@ -66,8 +66,12 @@ func NewB(id string) *B {
 	return typed.NewResource[BSpec, bExt](resource.NewMetadata(hx.NS, BType, id, resource.VersionUndefined), BSpec{})
 }
 
-func aPtr(id string) resource.Pointer { return resource.NewMetadata(hx.NS, AType, id, resource.VersionUndefined) }
-func bPtr(id string) resource.Pointer { return resource.NewMetadata(hx.NS, BType, id, resource.VersionUndefined) }
+func aPtr(id string) resource.Pointer {
+	return resource.NewMetadata(hx.NS, AType, id, resource.VersionUndefined)
+}
+func bPtr(id string) resource.Pointer {
+	return resource.NewMetadata(hx.NS, BType, id, resource.VersionUndefined)
+}
 
 func snap(r resource.Resource) string {
 	if r == nil {
@@ -458,14 +462,14 @@ func checkOrdering(c Cfg, x *explore.X, log *hx.Log) {
 
 func scripts(thorough bool) map[string][]string {
 	s := map[string][]string{
-		"create-update":            {"create a", "update a"},
-		"create-tdd":               {"create a", "tdd a"},
-		"create-update-tdd":        {"create a", "update a", "tdd a"},
-		"create-tdd-recreate":      {"create a", "tdd a", "create a"},
-		"two-inputs":               {"create a", "create b", "tdd a"},
+		"create-update":             {"create a", "update a"},
+		"create-tdd":                {"create a", "tdd a"},
+		"create-update-tdd":         {"create a", "update a", "tdd a"},
+		"create-tdd-recreate":       {"create a", "tdd a", "create a"},
+		"two-inputs":                {"create a", "create b", "tdd a"},
 		"output-held-by-thirdparty": {"create a", "outfin a", "tdd a", "outrmfin a"},
-		"external-output-teardown": {"create a", "outteardown a", "update a"},
-		"teardown-only":            {"create a", "teardown a"},
+		"external-output-teardown":  {"create a", "outteardown a", "update a"},
+		"teardown-only":             {"create a", "teardown a"},
 	}
 	if thorough {
 		s["create-update-update-tdd"] = []string{"create a", "update a", "update a", "tdd a"}
